@@ -616,7 +616,7 @@ func (e *Enc) ret(x *ssa.Return, st *State) {
 	defer func() { e.terminal = false }()
 	// `returns` clauses of the loops this return statement sits in
 	for _, li := range e.loops {
-		if li.lc == nil || !li.blocks[x.Block()] {
+		if li.lc == nil || len(li.lc.Ret) == 0 || !e.inLoopBody(li, x.Block()) {
 			continue
 		}
 		for k, rc := range li.lc.Ret {
@@ -689,4 +689,31 @@ func (e *Enc) appendOnly(n0, l0, n1, l1 Term, ref *Term) {
 	e.assume(Term{fmt.Sprintf("(forall ((%s Int)) (! (>= (select %s %s) (select %s %s)) :pattern ((select %s %s))))", c, n1.S, c, n0.S, c, n1.S, c), sBool})
 	e.assume(Term{fmt.Sprintf("(forall ((%s Int) (%s Int)) (! (=> (and (<= 0 %s) (< %s (select %s %s))) (= (select (select %s %s) %s) (select (select %s %s) %s))) :pattern ((select (select %s %s) %s))))",
 		c, k, k, k, n0.S, c, l1.S, c, k, l0.S, c, k, l1.S, c, k), sBool})
+}
+
+// inLoopBody: is block b part of the loop's source body? The natural loop does not contain the blocks that leave
+// it by a return; those are the blocks outside it all of whose predecessors are in the loop or are such blocks
+// themselves, other than the loop's normal exit (the block after the loop statement, "....done").
+func (e *Enc) inLoopBody(li *loopInfo, b *ssa.BasicBlock) bool {
+	if li.blocks[b] {
+		return true
+	}
+	seen := map[*ssa.BasicBlock]bool{}
+	var in func(x *ssa.BasicBlock) bool
+	in = func(x *ssa.BasicBlock) bool {
+		if li.blocks[x] {
+			return true
+		}
+		if seen[x] || len(x.Preds) == 0 || strings.HasSuffix(x.Comment, ".done") {
+			return false
+		}
+		seen[x] = true
+		for _, p := range x.Preds {
+			if !in(p) {
+				return false
+			}
+		}
+		return true
+	}
+	return in(b)
 }
